@@ -20,6 +20,18 @@ func numTemplate(eco string, k int, lens []int) string {
 	return versionPrefix[eco] + strings.Join(parts, ".")
 }
 
+// longMarker replaces the last digit position of a marker by an eight-digit number.
+func longMarker(m string) string {
+	i := strings.LastIndex(m, "{d}")
+	if j := strings.LastIndex(m, "{D}"); j > i {
+		i = j
+	}
+	if i < 0 {
+		return m
+	}
+	return m[:i] + "{D}{d}{d}{d}{d}{d}{d}{d}" + m[i+3:]
+}
+
 func init() {
 	registerCheck(&CheckDef{
 		ID:    "C03",
@@ -52,6 +64,17 @@ func init() {
 					}
 				}
 				ms := markers[eco]
+				// every numbered marker also with an eight-digit number (date-style snapshots)
+				withLong := func(in []string) []string {
+					out := append([]string{}, in...)
+					for _, m := range in {
+						if l := longMarker(m); l != m {
+							out = append(out, l)
+						}
+					}
+					return out
+				}
+				ms = markerSpec{older: withLong(ms.older), newer: withLong(ms.newer)}
 				for _, base := range markerBases(eco) {
 					for _, m := range ms.older {
 						out = append(out, &Config{ID: fmt.Sprintf("C03/mark/%s/%s%s/older", eco, base, m), Pkg: zzhPkg, Func: "C03Mark", Args: []ArgSpec{ArgStr(eco), ArgTmpl(base), ArgTmpl(m), ArgInt(-1)}})
@@ -64,7 +87,7 @@ func init() {
 			return out
 		},
 		Bounds: func(tier string) string {
-			return "arities per DESIGN B.2; digit-run lengths {1,2,3,5,10} (thorough adds 4,7,9 and mixed lengths); values <= 2^31 without leading zeros; marker spellings per DESIGN B.3 on 2-4 base shapes"
+			return "arities per DESIGN B.2; digit-run lengths {1,2,3,5,10} (thorough adds 4,7,9 and mixed lengths); values <= 2^31 without leading zeros; marker spellings per DESIGN B.3 on 2-4 base shapes, numbered markers with one digit and with eight digits"
 		},
 		Assume: []string{"marker direction table and arity table are spec-side (DESIGN B.2, B.3)"},
 	})
